@@ -1,8 +1,292 @@
 //! C01 (deep model) — literal tie between the Gallina mirror of the MPC compiler's per-graph step
 //! (Model/MpcCompile.v: propagate_private_annotations, get_nodes_to_reshare, compile_to_mpc_graph)
-//! and /repo's `compile_to_mpc_graph`, reached through the guarded hook
-//! `ciphercore_base::mpc::verif_hooks::compile_graph_to_mpc`.
+//! and /repo's `compile_to_mpc_graph`, reached through the guarded hooks
+//! `ciphercore_base::mpc::verif_hooks::{compile_graph_to_mpc, private_and_reshared}`.
+//!
+//! Kinds:
+//!  * `T:compile-literal` — `compile_graph <source nodes> <output id> <is_input_private>` computed by
+//!    vm_compute must equal, node for node (operation, dependency ids, annotations, inferred type,
+//!    in creation order) and with the same output id, the graph the real compiler emitted; the lhs
+//!    also evaluates `mpc_mirrored` on the source, which must be true (the model's fragment);
+//!  * `planner` — the private set and the set of nodes to reshare (sorted ids) of the two analyses;
+//!  * `T:gadget-literal` — for every Custom node (AddMPC, SubtractMPC, MultiplyMPC, DotMPC, MatmulMPC,
+//!    GemmMPC) of a compiled graph: the graph `CustomOperation::instantiate` builds on the argument
+//!    types equals `gadget_body` node for node (the gadget semantics used by the theorem is PROVED
+//!    from these bodies, Proofs/MpcCompileGadgets.v);
+//!  * `T:compile-rejected` — programs the compiler rejects (operations it does not compile, or
+//!    an is_input_private vector that is too short): same Err / Panic.
+use crate::coqfmt::*;
+use crate::export::*;
 use crate::out::Out;
+use crate::progen::*;
 use crate::rng::Rng;
+use ciphercore_base::data_types::*;
+use ciphercore_base::graphs::*;
+use ciphercore_base::mpc::verif_hooks::{compile_graph_to_mpc, private_and_reshared};
+use serde_json::json;
 
-pub fn run(_tier: &str, _rng: &mut Rng, _out: &mut Out) {}
+/// operation families of the mirrored fragment (names of progen.rs)
+pub const DEEP_OPS: [&str; 35] = [
+    "add", "add", "sub", "mul", "mul", "mul", "dot", "matmul", "gemm", "sum", "cumsum", "get", "getslice",
+    "reshape", "permute", "stack", "concat", "constant", "zeros", "ones", "tuple", "tuple", "tupleget", "tupleget",
+    "vector", "vector", "named", "namedget", "namedget", "vectorget", "vectorget", "zip", "repeat", "a2v", "v2a",
+];
+/// additive / bilinear / share-wise unary and n-ary operations (the fragment of C01_deep_compile_correct_partial)
+pub const DEEP_THEOREM_OPS: [&str; 21] = [
+    "add", "sub", "mul", "mul", "mul", "dot", "matmul", "gemm", "sum", "cumsum", "get", "getslice", "reshape", "permute", "constant",
+    "zeros", "ones", "mul", "stack", "concat", "stack",
+];
+/// product-heavy programs: private x private products feeding products, so that the planner reshapes
+/// its plan (ensure_dependencies_are_reshared, sanity_pass) and reshare blocks are emitted
+pub const DEEP_MUL_OPS: [&str; 18] = [
+    "mul", "mul", "mul", "mul", "mul", "mul", "add", "sub", "sum", "permute", "matmul", "dot", "getslice", "tuple", "get", "vector",
+    "named", "a2v",
+];
+
+/// Rust twin of `mpc_mirrored` (Model/MpcCompile.v); the Coq side re-checks it in every case
+fn mirrored(g: &Graph) -> bool {
+    g.get_nodes().iter().all(|n| {
+        !matches!(
+            n.get_operation(),
+            Operation::MixedMultiply
+                | Operation::Truncate(_)
+                | Operation::A2B
+                | Operation::B2A(_)
+                | Operation::Join(_, _)
+                | Operation::JoinWithColumnMasks(_, _)
+                | Operation::ApplyPermutation(_)
+                | Operation::Sort(_)
+        )
+    })
+}
+
+/// Gallina term of the gadget named by a Custom node (Model/MpcCompile.v `gadget`)
+fn gadget_coq(name: &str) -> Option<String> {
+    match name {
+        "AddMPC" => Some("GAdd".into()),
+        "SubtractMPC" => Some("GSub".into()),
+        "MultiplyMPC" => Some("(GBil OMultiply)".into()),
+        "DotMPC" => Some("(GBil ODot)".into()),
+        "MatmulMPC" => Some("(GBil OMatmul)".into()),
+        _ => name.strip_prefix("GemmMPC-").and_then(|r| { let v: Vec<&str> = r.split('-').collect(); if v.len() == 2 { Some(format!("(GBil (OGemm {} {}))", v[0], v[1])) } else { None } }),
+    }
+}
+
+/// `T:gadget-literal`: the graph `instantiate` builds for a Custom node of a compiled graph, on the
+/// types of its arguments, equals `gadget_body` node for node (with the same output id)
+fn gadget_cases(cg: &Graph, seen: &mut std::collections::HashSet<String>, out: &mut Out) {
+    for n in cg.get_nodes() {
+        if let Operation::Custom(c) = n.get_operation() {
+            let name = c.get_name();
+            let g = match gadget_coq(&name) { Some(g) => g, None => continue };
+            let tys: Vec<Type> = n.get_node_dependencies().iter().map(|d| d.get_type().unwrap()).collect();
+            let key = format!("{}|{}", name, tys.iter().map(|t| format!("{}", t)).collect::<Vec<_>>().join("|"));
+            if !seen.insert(key) { continue; }
+            let ictx = create_context().unwrap();
+            let (c2, i2, t2) = (c.clone(), ictx.clone(), tys.clone());
+            let r = observe(move || c2.instantiate(i2, t2));
+            out.stat(&format!("deep:gadget-instantiate:{}", r.tag()));
+            let private = tys.iter().any(|t| t.is_tuple());
+            let rhs = match &r {
+                Outcome::Ok(ig) => { let _ = ig.set_as_main(); let _ = ictx.finalize(); format!("(Ok ({}, {}))", nodes_coq(ig), ig.get_output_node().unwrap().get_id()) }
+                Outcome::Err => "Err".to_string(),
+                Outcome::Panic => "Panic".to_string(),
+            };
+            let desc = json!({"gadget": name, "argument_types": tys.iter().map(|t| format!("{}", t)).collect::<Vec<_>>()});
+            out.case("T:gadget-literal", format!("gadget_body {} {}", g, list(&tys, |t| ty(t))), rhs, desc, private);
+        }
+    }
+}
+
+fn flags_coq(f: &[bool]) -> String {
+    list(f, |b| if *b { "true".into() } else { "false".into() })
+}
+
+/// elementwise programs over one shape: add / sub / mul, constants (copy of c01.rs ring_program,
+/// which is private there)
+fn ring_program(rng: &mut Rng, st: ScalarType) -> Prog {
+    let ctx = create_context().unwrap();
+    let g = ctx.create_graph().unwrap();
+    let shape = small_shape(rng);
+    let t = array_type(shape, st);
+    let ni = 1 + rng.below(3) as usize;
+    let mut pool: Vec<Node> = (0..ni).map(|_| g.input(t.clone()).unwrap()).collect();
+    if rng.chance(1, 2) { pool.push(g.constant(t.clone(), gen_value(&t, rng)).unwrap()); }
+    if rng.chance(1, 6) { pool.push(g.zeros(t.clone()).unwrap()); }
+    if rng.chance(1, 6) { pool.push(g.ones(t.clone()).unwrap()); }
+    let n_ops = 1 + rng.below(6);
+    for _ in 0..n_ops {
+        let a = rng.pick(&pool).clone();
+        let b = rng.pick(&pool).clone();
+        let n = match rng.below(4) { 0 => a.add(b), 1 => a.subtract(b), _ => a.multiply(b) }.unwrap();
+        pool.push(n);
+    }
+    let o = pool.last().unwrap().clone();
+    g.set_output_node(o).unwrap();
+    g.finalize().unwrap();
+    ctx.set_main_graph(g.clone()).unwrap();
+    ctx.finalize().unwrap();
+    Prog { ctx, g, input_types: vec![t; ni], attempts: vec![] }
+}
+
+/// a program with one operation the compiler does not compile (the `_ =>` arms)
+fn rejected_program(rng: &mut Rng, variant: usize) -> Prog {
+    let ctx = create_context().unwrap();
+    let g = ctx.create_graph().unwrap();
+    let t = array_type(vec![3], UINT32);
+    let a = g.input(t.clone()).unwrap();
+    let b = g.input(t.clone()).unwrap();
+    let c = a.add(b.clone()).unwrap();
+    let o = match variant % 6 {
+        0 => c.nop().unwrap(),
+        1 => { let r = g.random(t.clone()).unwrap(); c.add(r).unwrap() }
+        2 => { let idx = g.constant(array_type(vec![2], UINT64), ciphercore_base::data_values::Value::from_flattened_array(&[0u64, 2], UINT64).unwrap()).unwrap(); c.gather(idx, 0).unwrap() }
+        3 => { let k = g.random(array_type(vec![128], BIT)).unwrap(); let r = g.add_node(vec![k], vec![], Operation::PRF(0, t.clone())).unwrap(); c.multiply(r).unwrap() }
+        4 => g.add_node(vec![c], vec![], Operation::Print("x".into())).unwrap(),
+        _ => { let p = g.random_permutation(3).unwrap(); let q = g.add_node(vec![p], vec![], Operation::InversePermutation).unwrap(); g.create_tuple(vec![c, q]).unwrap() }
+    };
+    let _ = rng.next();
+    g.set_output_node(o).unwrap();
+    g.finalize().unwrap();
+    ctx.set_main_graph(g.clone()).unwrap();
+    ctx.finalize().unwrap();
+    Prog { ctx, g, input_types: vec![t.clone(), t], attempts: vec![] }
+}
+
+/// VectorGet on a vector of arrays with an index input: compiled when the index is public, rejected
+/// ("VectorGet can't have a private index") when it is private
+fn vector_get_program(rng: &mut Rng) -> Prog {
+    let ctx = create_context().unwrap();
+    let g = ctx.create_graph().unwrap();
+    let t = array_type(vec![2], *rng.pick(&[UINT8, INT32, UINT64]));
+    let it = scalar_type(UINT64);
+    let a = g.input(t.clone()).unwrap();
+    let idx = g.input(it.clone()).unwrap();
+    let b = a.add(a.clone()).unwrap();
+    let v = g.create_vector(t.clone(), vec![a, b]).unwrap();
+    let e = v.vector_get(idx).unwrap();
+    let o = e.multiply(e.clone()).unwrap();
+    g.set_output_node(o).unwrap();
+    g.finalize().unwrap();
+    ctx.set_main_graph(g.clone()).unwrap();
+    ctx.finalize().unwrap();
+    Prog { ctx, g, input_types: vec![t, it], attempts: vec![] }
+}
+
+fn all_flag_vectors(n: usize) -> Vec<Vec<bool>> {
+    (0..(1u32 << n)).map(|m| (0..n).map(|j| m & (1 << j) != 0).collect()).collect()
+}
+
+fn deep_cases(p: &Prog, flags: &[bool], stream: &str, seen: &mut std::collections::HashSet<String>, out: &mut Out) {
+    if !mirrored(&p.g) { out.stat("deep:skipped-not-mirrored"); return; }
+    let src = nodes_coq(&p.g);
+    let oid = p.g.get_output_node().unwrap().get_id();
+    let ops_desc: Vec<String> = p.g.get_nodes().iter().map(|n| op_name(&n.get_operation())).collect();
+    let private = flags.iter().any(|b| *b);
+    let g1 = p.g.clone();
+    let f1 = flags.to_vec();
+    let r = observe(|| compile_graph_to_mpc(g1, f1));
+    out.stat(&format!("deep:{}:compile:{}", stream, r.tag()));
+    out.stat(&format!("deep:flags:{}", flags.iter().map(|b| if *b { 'P' } else { 'p' }).collect::<String>().replace('P', "1").replace('p', "0")));
+    for n in p.g.get_nodes() { out.stat(&format!("deep:src-op:{}", op_name(&n.get_operation()).split('(').next().unwrap_or("?"))); }
+    let rhs = match &r {
+        Outcome::Ok((_cctx, cg)) => {
+            // _cctx owns the compiled graph's context: it must stay alive while the graph is exported
+            let n = cg.get_nodes().len();
+            out.stat_n("deep:compiled-nodes", n as u64);
+            out.stat(&format!("deep:compiled-size:{}", match n { 0..=9 => "<10", 10..=29 => "10-29", 30..=79 => "30-79", _ => ">=80" }));
+            let nres = cg.get_nodes().iter().filter(|n| matches!(n.get_operation(), Operation::NOP)).count() / 3;
+            out.stat(&format!("deep:reshares:{}", std::cmp::min(nres, 4)));
+            for n in cg.get_nodes() { if let Operation::Custom(c) = n.get_operation() { out.stat(&format!("deep:gadget:{}", c.get_name())); } }
+            gadget_cases(cg, seen, out);
+            format!("(true, Ok ({}, {}))", nodes_coq(cg), cg.get_output_node().unwrap().get_id())
+        }
+        Outcome::Err => "(true, Err)".to_string(),
+        Outcome::Panic => "(true, Panic)".to_string(),
+    };
+    let desc = json!({"stream": stream, "ops": ops_desc, "input_types": p.input_types.iter().map(|t| format!("{}", t)).collect::<Vec<_>>(), "is_input_private": flags, "output": oid});
+    let lhs = format!("let src := {} in (mpc_mirrored src, compile_graph src {} {})", src, oid, flags_coq(flags));
+    let kind = if matches!(r, Outcome::Ok(_)) { "T:compile-literal" } else { "T:compile-rejected" };
+    out.case(kind, lhs, rhs, desc, private);
+    planner_case(p, flags, out);
+}
+
+/// the two analyses on their own
+fn planner_case(p: &Prog, flags: &[bool], out: &mut Out) {
+    let src = nodes_coq(&p.g);
+    let oid = p.g.get_output_node().unwrap().get_id();
+    let ops_desc: Vec<String> = p.g.get_nodes().iter().map(|n| op_name(&n.get_operation())).collect();
+    let private = flags.iter().any(|b| *b);
+    let desc = json!({"ops": ops_desc, "input_types": p.input_types.iter().map(|t| format!("{}", t)).collect::<Vec<_>>(), "is_input_private": flags, "output": oid});
+    let g2 = p.g.clone();
+    let f2 = flags.to_vec();
+    let pr = observe(|| private_and_reshared(g2, f2));
+    let prhs = match &pr {
+        Outcome::Ok((pv, rs)) => { out.stat(&format!("deep:planner-reshared:{}", std::cmp::min(rs.len(), 4))); format!("(Ok ({}, {}))", list_u64(pv), list_u64(rs)) }
+        Outcome::Err => "Err".to_string(),
+        Outcome::Panic => "Panic".to_string(),
+    };
+    out.case("planner", format!("private_and_reshared {} {} {}", src, oid, flags_coq(flags)), prhs, desc, private);
+}
+
+fn run_flags(p: &Prog, stream: &str, exhaustive: bool, rng: &mut Rng, seen: &mut std::collections::HashSet<String>, out: &mut Out) {
+    let n = p.input_types.len();
+    if exhaustive && n <= 3 {
+        for f in all_flag_vectors(n) { deep_cases(p, &f, stream, seen, out); }
+    } else {
+        deep_cases(p, &vec![true; n], stream, seen, out);
+        let f: Vec<bool> = (0..n).map(|_| rng.chance(1, 2)).collect();
+        if f.iter().any(|b| !*b) { deep_cases(p, &f, stream, seen, out); }
+    }
+}
+
+pub fn run(tier: &str, rng: &mut Rng, out: &mut Out) {
+    let (n_ring, n_mix, n_thm, n_gen, n_rej) = match tier { "thorough" => (80, 90, 120, 300, 12), "search" => (10, 18, 10, 20, 6), _ => (10, 12, 12, 30, 6) };
+    let n_mul = match tier { "thorough" => 150, "search" => 10, _ => 14 };
+    let exhaustive = tier == "thorough";
+    let mut seen = std::collections::HashSet::new();
+    let int_sts = [UINT8, INT16, UINT32, INT32, UINT64, INT64, UINT128];
+    for i in 0..n_ring {
+        let st = if i % 5 == 4 { BIT } else { *rng.pick(&int_sts) };
+        let p = ring_program(rng, st);
+        run_flags(&p, "ring", exhaustive, rng, &mut seen, out);
+    }
+    for i in 0..n_mix {
+        let st = *rng.pick(&int_sts);
+        let p = crate::c01::broadcast_mix_program(rng, st, i * 5 + 1);
+        run_flags(&p, "broadcast-mix", true, rng, &mut seen, out);
+    }
+    for i in 0..(n_thm + n_gen) {
+        let thm = i < n_thm;
+        let st = if i % 7 == 6 { BIT } else { *rng.pick(&int_sts) };
+        let ops: Vec<&'static str> = if thm { DEEP_THEOREM_OPS.to_vec() } else { DEEP_OPS.to_vec() };
+        let (ni, no) = (1 + rng.below(3) as usize, 1 + rng.below(8) as usize);
+        let cfg = GenCfg { n_inputs: ni, n_ops: no, scalar_types: vec![st], ops, small: true };
+        // tuple outputs (most of the graph live, CreateTuple output) and single array outputs
+        let p = if i % 3 == 0 { gen_program(rng, &cfg) } else { gen_program_single_output(rng, &cfg) };
+        run_flags(&p, if thm { "theorem-fragment" } else { "fragment" }, exhaustive, rng, &mut seen, out);
+    }
+    // product-heavy programs, all inputs private (and one random vector)
+    for i in 0..n_mul {
+        let st = if i % 6 == 5 { BIT } else { *rng.pick(&int_sts) };
+        let (ni, no) = (2 + rng.below(2) as usize, 3 + rng.below(7) as usize);
+        let cfg = GenCfg { n_inputs: ni, n_ops: no, scalar_types: vec![st], ops: DEEP_MUL_OPS.to_vec(), small: true };
+        let p = if i % 2 == 0 { gen_program(rng, &cfg) } else { gen_program_single_output(rng, &cfg) };
+        run_flags(&p, "mul-heavy", false, rng, &mut seen, out);
+    }
+    // rejected: operations outside is_mpc_compiled / the `_ =>` arms, and a too short flag vector
+    for i in 0..n_rej {
+        let p = rejected_program(rng, i);
+        deep_cases(&p, &[true, i % 2 == 0], "rejected-op", &mut seen, out);
+    }
+    for _ in 0..std::cmp::max(1, n_rej / 6) {
+        let p = vector_get_program(rng);
+        for f in all_flag_vectors(2) { deep_cases(&p, &f, "vector-get-index", &mut seen, out); }
+    }
+    for i in 0..std::cmp::max(2, n_rej / 3) {
+        let p = ring_program(rng, UINT32);
+        let n = p.input_types.len();
+        let f: Vec<bool> = (0..n - 1).map(|j| (i + j) % 2 == 0).collect();
+        deep_cases(&p, &f, "short-flags", &mut seen, out);
+    }
+}
